@@ -342,6 +342,31 @@ func (b *Browser) PostForm(rawurl string, form url.Values) *Resp {
 	return b.do(req)
 }
 
+// PostFormWithCookies posts a form with exactly the given cookies.
+func (b *Browser) PostFormWithCookies(rawurl string, form url.Values, cookies []*http.Cookie) *Resp {
+	req, err := http.NewRequest("POST", rawurl, strings.NewReader(form.Encode()))
+	if err != nil {
+		return &Resp{Err: err}
+	}
+	req.Header.Set("Content-Type", "application/x-www-form-urlencoded")
+	c := b.net.Client(b.Name, nil, false)
+	for _, ck := range cookies {
+		req.AddCookie(ck)
+	}
+	before := b.net.Len()
+	resp, err := c.Do(req)
+	var ex *Exchange
+	if xs := b.net.Since(before); len(xs) > 0 {
+		ex = xs[0]
+	}
+	if err != nil {
+		return &Resp{Err: err, Ex: ex}
+	}
+	defer resp.Body.Close()
+	body, _ := io.ReadAll(resp.Body)
+	return &Resp{Status: resp.StatusCode, Header: resp.Header, Body: string(body), Location: resp.Header.Get("Location"), Ex: ex}
+}
+
 // GetWithCookies sends a request with exactly the given cookies (an attacker-crafted jar).
 func (b *Browser) GetWithCookies(rawurl string, cookies []*http.Cookie) *Resp {
 	req, err := http.NewRequest("GET", rawurl, nil)
